@@ -300,4 +300,223 @@ theorem untilAccepted_last : ∀ (ms : List Meas) (n : Nat) (l : List Meas),
         obtain ⟨l0, m', rfl, hm⟩ := untilAccepted_last ms n l1 h0
         exact ⟨m :: l0, m', rfl, hm⟩
 
+/-! ## the stuck test -/
+
+/-- `EcState::stuck`, readable: the delta is zero, or equals the previous delta, or the first
+    difference `last − current` repeats the previous first difference -/
+theorem stuck_fst_iff (ec : Jitter.Ec) (d : U32) :
+    (Jitter.stuck ec d).1 = true ↔ d = 0 ∨ d = ec.lastDelta ∨ ec.lastDelta - d = ec.lastDelta2 := by
+  simp only [Jitter.stuck, Bool.or_eq_true, beq_iff_eq, sub_eq_zero_iff, or_assoc]
+  constructor
+  · rintro (h | h | h)
+    · exact .inl h
+    · exact .inr (.inl h.symm)
+    · exact .inr (.inr h)
+  · rintro (h | h | h)
+    · exact .inl h
+    · exact .inr (.inl h.symm)
+    · exact .inr (.inr h)
+
+theorem stuck_snd (ec : Jitter.Ec) (d : U32) :
+    (Jitter.stuck ec d).2 = ⟨ec.prevTime, d, ec.lastDelta - d⟩ := rfl
+
+theorem sub_sub_eq_zero_iff (d0 d1 d2 : U32) :
+    (d1 - d2) - (d0 - d1) = 0 ↔ d2 - d1 = d1 - d0 := by
+  rw [sub_eq_zero_iff]
+  constructor <;> intro h <;> bv_omega
+
+/-- every element exceeds its predecessor by `b` (wrapping 32-bit arithmetic): an arithmetic
+    progression; `StepBy 0` = all elements equal -/
+def StepBy (b : U32) : List U32 → Prop
+  | x :: y :: rest => y - x = b ∧ StepBy b (y :: rest)
+  | _ => True
+
+instance (b : U32) : ∀ l, Decidable (StepBy b l)
+  | [] => isTrue trivial
+  | [_] => isTrue trivial
+  | x :: y :: rest =>
+    have := instDecidableStepBy b (y :: rest)
+    inferInstanceAs (Decidable (y - x = b ∧ StepBy b (y :: rest)))
+
+theorem StepBy.tail {b : U32} : ∀ {l : List U32}, StepBy b l → StepBy b l.tail
+  | [], _ => trivial
+  | [_], _ => trivial
+  | _ :: _ :: _, h => h.2
+
+theorem step_fst_delta (ec : Jitter.Ec) (t : U64) : (step ec t).1.delta = trunc32 (t - ec.prevTime) := rfl
+theorem step_snd (ec : Jitter.Ec) (t : U64) :
+    (step ec t).2 = ⟨t, (step ec t).1.delta, ec.lastDelta - (step ec t).1.delta⟩ := rfl
+theorem step_fst_stuck (ec : Jitter.Ec) (t : U64) :
+    (step ec t).1.stuck = ((step ec t).1.delta == 0 || ec.lastDelta - (step ec t).1.delta == 0 ||
+      ec.lastDelta - (step ec t).1.delta - ec.lastDelta2 == 0) := rfl
+
+/-- the spec's stuck flag is the model's `stuck` -/
+theorem step_eq_stuck (ec : Jitter.Ec) (t : U64) :
+    ((step ec t).1.stuck, (step ec t).2) =
+      Jitter.stuck { ec with prevTime := t } ((t - ec.prevTime).setWidth 32) := rfl
+
+/-- once the first difference has been `b` twice in a row, and stays `b`, every further measurement is stuck -/
+theorem measFrom_stuck_of_stepBy (b : U32) : ∀ (ec : Jitter.Ec) (rs : List U64),
+    ec.lastDelta2 = 0 - b → StepBy b (ec.lastDelta :: (measFrom ec rs).map (·.delta)) →
+    ∀ m ∈ measFrom ec rs, m.stuck = true
+  | ec, [], _, _ => by simp [measFrom]
+  | ec, [_], _, _ => by simp [measFrom]
+  | ec, [_, _], _, _ => by simp [measFrom]
+  | ec, x :: t :: y :: a, h2, hs => by
+    simp only [measFrom, List.map_cons] at hs ⊢
+    obtain ⟨hb, hs'⟩ := hs
+    have he : ec.lastDelta - (step ec t).1.delta = 0 - b := by bv_omega
+    intro m hm
+    rcases List.mem_cons.mp hm with rfl | hm
+    · rw [step_fst_stuck, he, h2, BitVec.sub_self]; simp
+    · exact measFrom_stuck_of_stepBy b (step ec t).2 a (by rw [step_snd]; exact he)
+        (by rw [step_snd]; exact hs') m hm
+
+/-- if the previous delta was `d` and every further delta is `d`, every further measurement is stuck -/
+theorem measFrom_stuck_of_const (d : U32) : ∀ (ec : Jitter.Ec) (rs : List U64),
+    ec.lastDelta = d → (∀ m ∈ measFrom ec rs, m.delta = d) → ∀ m ∈ measFrom ec rs, m.stuck = true
+  | ec, [], _, _ => by simp [measFrom]
+  | ec, [_], _, _ => by simp [measFrom]
+  | ec, [_, _], _, _ => by simp [measFrom]
+  | ec, x :: t :: y :: a, hl, hd => by
+    simp only [measFrom, List.mem_cons, forall_eq_or_imp] at hd ⊢
+    refine ⟨?_, measFrom_stuck_of_const d (step ec t).2 a (by rw [step_snd]; exact hd.1) hd.2⟩
+    rw [step_fst_stuck, hd.1, hl, BitVec.sub_self]; simp
+
+theorem accepted_eq_zero (l : List Meas) (h : ∀ m ∈ l, m.stuck = true) : accepted l = 0 := by
+  unfold accepted
+  rw [List.countP_eq_zero]
+  intro m hm
+  simp [h m hm]
+
+theorem stepBy_zero_iff : ∀ (d : U32) (l : List U32), StepBy 0 (d :: l) ↔ ∀ x ∈ l, x = d
+  | d, [] => by simp [StepBy]
+  | d, y :: l => by
+    simp only [StepBy, sub_eq_zero_iff, List.mem_cons, forall_eq_or_imp, stepBy_zero_iff y l]
+    constructor
+    · rintro ⟨rfl, h⟩; exact ⟨rfl, h⟩
+    · rintro ⟨rfl, h⟩; exact ⟨rfl, h⟩
+
+
+/-- the 32-bit deltas a collection computes from a reading list -/
+def deltaSeq (rs : List U64) : List U32 := (measurements rs).map (·.delta)
+
+/-- equal deltas: every measurement after the first one is stuck -/
+theorem stuck_from_second (rs : List U64) (h : StepBy 0 (deltaSeq rs)) :
+    ∀ m ∈ (measurements rs).tail, m.stuck = true := by
+  unfold deltaSeq at h
+  match rs, h with
+  | [], _ => simp [measurements_nil]
+  | [_], _ => simp [measurements_cons, measFrom]
+  | [_, _], _ => simp [measurements_cons, measFrom]
+  | [_, _, _], _ => simp [measurements_cons, measFrom]
+  | t0 :: x :: t :: y :: a, h =>
+    rw [measurements_cons] at h ⊢
+    simp only [measFrom, List.map_cons, List.tail_cons] at h ⊢
+    rw [stepBy_zero_iff] at h
+    exact measFrom_stuck_of_const _ _ a rfl (fun m hm => h _ (List.mem_map_of_mem hm))
+
+/-- deltas in arithmetic progression: every measurement after the second one is stuck -/
+theorem stuck_from_third (b : U32) (rs : List U64) (h : StepBy b (deltaSeq rs)) :
+    ∀ m ∈ (measurements rs).drop 2, m.stuck = true := by
+  unfold deltaSeq at h
+  match rs, h with
+  | [], _ => simp [measurements_nil]
+  | [_], _ => simp [measurements_cons, measFrom]
+  | [_, _], _ => simp [measurements_cons, measFrom]
+  | [_, _, _], _ => simp [measurements_cons, measFrom]
+  | [_, _, _, _], _ => simp [measurements_cons, measFrom]
+  | [_, _, _, _, _], _ => simp [measurements_cons, measFrom]
+  | [_, _, _, _, _, _], _ => simp [measurements_cons, measFrom]
+  | t0 :: x :: t :: y :: x2 :: t2 :: y2 :: a, h =>
+    rw [measurements_cons] at h ⊢
+    simp only [measFrom, List.map_cons, List.drop_succ_cons, List.drop_zero] at h ⊢
+    obtain ⟨hb, hs⟩ := h
+    refine measFrom_stuck_of_stepBy b _ a ?_ hs
+    show (step ⟨t0, 0, 0⟩ t).1.delta - (step (step ⟨t0, 0, 0⟩ t).2 t2).1.delta = 0 - b
+    generalize (step (step ⟨t0, 0, 0⟩ t).2 t2).1.delta = d2 at hb ⊢
+    generalize (step ⟨t0, 0, 0⟩ t).1.delta = d1 at hb ⊢
+    bv_omega
+
+/-- the rounds loop makes no progress on measurements that are all stuck (whatever the fuel) -/
+theorem collect_none_of_stuck : ∀ (fuel need : Nat) (j : Jitter.Rng) (ec : Jitter.Ec) (rs : List U64),
+    (∀ m ∈ measFrom ec rs, m.stuck = true) → Jitter.collect fuel (need + 1) j ec rs = none
+  | 0, _, _, _, _, _ => rfl
+  | fuel + 1, need, j, ec, rs, h => by
+    rw [JitterRefine.collect_succ]
+    match rs, h with
+    | [], _ => rfl
+    | [_], _ => rfl
+    | [_, _], _ => rfl
+    | x :: t :: y :: a, h =>
+      obtain ⟨mp, hm⟩ := measureJitter_cons j ec x t y a
+      simp only [measFrom, List.mem_cons, forall_eq_or_imp] at h
+      rw [hm, Option.bind_some, h.1]
+      simp only [Bool.not_true, Bool.false_eq_true, if_false]
+      exact collect_none_of_stuck fuel need _ _ a h.2
+
+/-! ## scripted timers -/
+
+/-- time stamps whose increments grow by `b` per reading: `t, t+d, t+2d+b, t+3d+3b, …`
+    (`b = 0`: a timer advancing by the constant step `d`) -/
+def quadraticTimes (t d b : U64) : Nat → List U64
+  | 0 => []
+  | n + 1 => t :: quadraticTimes (t + d) (d + b) b n
+
+/-- `t, t+s, t+2s, …` -/
+def linearTimes (t s : U64) (n : Nat) : List U64 := quadraticTimes t s 0 n
+
+/-- `a, a+b, a+2b, …` -/
+def arith (a b : U32) : Nat → List U32
+  | 0 => []
+  | n + 1 => a :: arith (a + b) b n
+
+theorem stepBy_arith (b : U32) : ∀ (n : Nat) (a : U32), StepBy b (arith a b n)
+  | 0, _ => trivial
+  | 1, _ => trivial
+  | n + 2, a => ⟨by bv_omega, stepBy_arith b (n + 1) (a + b)⟩
+
+theorem deltas_cons_cons (a b : U64) (l : List U64) :
+    JitterProc.deltas (a :: b :: l) = trunc32 (b - a) :: JitterProc.deltas (b :: l) := rfl
+
+theorem deltas_quadratic (b : U64) : ∀ (n : Nat) (t d : U64),
+    JitterProc.deltas (quadraticTimes t d b (n + 1)) = arith (trunc32 d) (trunc32 b) n
+  | 0, _, _ => rfl
+  | n + 1, t, d => by
+    have ih := deltas_quadratic b n (t + d) (d + b)
+    simp only [quadraticTimes] at ih ⊢
+    rw [deltas_cons_cons, ih]
+    simp only [arith, trunc32]
+    rw [BitVec.setWidth_add _ _ (by decide)]
+    congr 2
+    bv_omega
+
+/-- a script with quadratically growing time stamps has its deltas in arithmetic progression -/
+theorem stepBy_of_quadratic (rs : List U64) (t d b : U64) (n : Nat)
+    (h : JitterProc.times rs = quadraticTimes t d b n) : StepBy (trunc32 b) (deltaSeq rs) := by
+  unfold deltaSeq
+  rw [measurements_delta, h]
+  rcases n with _ | n
+  · trivial
+  · rw [deltas_quadratic]; exact stepBy_arith _ _ _
+
+theorem stepBy_of_linear (rs : List U64) (t s : U64) (n : Nat)
+    (h : JitterProc.times rs = linearTimes t s n) : StepBy 0 (deltaSeq rs) :=
+  stepBy_of_quadratic rs t s 0 n h
+
+/-- a script: the priming reading, then per measurement `(loop-count, time, loop-count)` -/
+def script (t0 : U64) (ms : List (U64 × U64 × U64)) : List U64 :=
+  t0 :: ms.flatMap fun m => [m.1, m.2.1, m.2.2]
+
+theorem middles_flatMap : ∀ (ms : List (U64 × U64 × U64)),
+    JitterProc.middles (ms.flatMap fun m => [m.1, m.2.1, m.2.2]) = ms.map (·.2.1)
+  | [] => rfl
+  | m :: ms => by
+    simp only [List.flatMap_cons, List.cons_append, List.nil_append, JitterProc.middles,
+      List.map_cons, middles_flatMap ms]
+
+theorem times_script (t0 : U64) (ms : List (U64 × U64 × U64)) :
+    JitterProc.times (script t0 ms) = t0 :: ms.map (·.2.1) := by
+  simp only [script, JitterProc.times, middles_flatMap]
+
 end Rngs.JitterEntropy
